@@ -35,6 +35,9 @@ class Opt:
     max_depth: int = 4
     odd_names: bool = False  # draw binder names from python-ast field names etc.
     non_op_methods_like_ops: bool = False  # x.select(...) style look-alikes
+    captured_ints: tuple = ()  # names (of the enclosing scope) that hold ints
+    helpers: tuple = ()  # (name, n_params) of int-valued helper functions that may be called
+    extra_binder_names: tuple = ()  # additional names binders may be given (to collide with captured names)
 
 
 NAME_POOL = ["e", "j", "t", "x", "y", "z", "a", "b", "jet", "trk", "v", "w"]
@@ -55,7 +58,7 @@ class Gen:
 
     # names --------------------------------------------------------------------------------
     def fresh(self, scope) -> str:
-        pool = NAME_POOL + (ODD_POOL if self.opt.odd_names else [])
+        pool = NAME_POOL + (ODD_POOL if self.opt.odd_names else []) + list(self.opt.extra_binder_names) * 3
         live = [n for n, _ in scope if n != "ds"]
         if self.scheme == "same":
             return self.same_name
@@ -223,6 +226,17 @@ class Gen:
             return p
         ints = self.vars_of(scope, lambda s: s == INT)
         objs = self.vars_of(scope, lambda s: s[0] == "obj")
+        bound = {n for n, _ in scope}
+        caps = [c for c in self.opt.captured_ints if c not in bound]
+        if caps and self.rng.random() < 0.25:
+            self.features.add("captured-int")
+            return self.rng.choice(caps)
+        helpers = [h for h in self.opt.helpers if h[0] not in bound]
+        if helpers and d > 0 and self.rng.random() < 0.2:
+            name, npar = self.rng.choice(helpers)
+            self.features.add("helper-call")
+            args = [self.int_expr(scope, d - 1) for _ in range(npar)]
+            return f"{name}({', '.join(args)})"
         if d <= 0 or r < 0.25:
             c = []
             if ints:
@@ -389,6 +403,11 @@ class Gen:
         p = self.via_bound_pack(("obj", cls), scope)
         if p:
             return p
+        if vs and self.opt.helpers and self.rng.random() < 0.25:
+            # a *bare* use of the variable (not as the base of an attribute)
+            self.features.add("bare-var-use")
+            v = self.rng.choice(vs)
+            return self.rng.choice([f"ident({v})", f"({v}, 0)[0]"])
         if vs and (d <= 0 or self.rng.random() < 0.85):
             return self.rng.choice(vs)
         if self.opt.first:
